@@ -50,7 +50,7 @@ func prepareCodec(ctx *Ctx, spec codecSpec) (*Prepared, error) {
 		return nil, err
 	}
 	p := &Prepared{Targets: map[string]*ReplayTarget{}, ExpectReach: map[string][]string{}, NotAnalysable: map[string]string{}}
-	jo := JobOptions{LoopBudget: 4096, AllocLimit: 1 << 16, TimeoutMs: 20000, EnumCap: 64, CheckRewrites: true, Witnesses: 1, FuncBudgetS: 40}
+	jo := JobOptions{LoopBudget: 4096, AllocLimit: 1 << 16, TimeoutMs: 20000, EnumCap: 64, CheckRewrites: true, Witnesses: 1, FuncBudgetS: 90}
 	if ctx.Tier == "thorough" {
 		jo.TimeoutMs = 120000
 		jo.FuncBudgetS = 600
